@@ -252,6 +252,8 @@ func schemaPath(id string) string {
 // noImports has no import statement (Generate merges nothing into its copies of the File's slices), three top-level structs
 // (ReadFile leaves spare capacity behind them) and a union with inline struct and message members.
 const noImports = `struct NiPoint { int32 x; int32 y; }
+readonly struct NiSpan { int32 type; int32 range; int32 func; NiPoint len; }
+message NiWords { 1 -> int32 type; 2 -> string string; 3 -> int32 error; }
 struct NiSize { uint16 w; uint16 h; }
 struct NiLabel {
   //[tag(json:"text")]
